@@ -142,6 +142,9 @@ type Interp struct {
 	tail     []pendingOb
 	batchDepth int
 	curHarness bool
+	regexLits []string
+	hashWrites map[int][]SliceV
+	hashSums  map[int]int
 	condObjs map[string]int
 	guarded  []guardedCell
 	fairSelect bool
@@ -1104,6 +1107,19 @@ func (a *Act) exec(instr ssa.Instruction) {
 		a.set(x, a.get(x.Tuple).(TupleV)[x.Index])
 	case *ssa.MakeMap:
 		a.set(x, MapV{obj: a.alloc(MapData{})})
+	case *ssa.MakeSlice:
+		n := a.get(x.Len).(*Term)
+		c := a.get(x.Cap).(*Term)
+		if !c.IsConst() {
+			c = a.concretize(c, "make([]T) capacity")
+		}
+		et := x.Type().Underlying().(*types.Slice).Elem()
+		arr := ArrayV{e: make([]Value, int(c.val))}
+		for i := range arr.e {
+			arr.e[i] = in.zeroVal(et)
+		}
+		a.mayPanic(BvCmp("bvugt", n, c), "makeslice: len out of range")
+		a.set(x, SliceV{arr: ptrTo(a.alloc(arr)), len: n, cap: c})
 	case *ssa.MakeChan:
 		a.set(x, ptrTo(a.alloc(ChanData{closed: False})))
 	case *ssa.MakeClosure:
@@ -1118,9 +1134,7 @@ func (a *Act) exec(instr ssa.Instruction) {
 		a.set(x, a.lookup(x))
 	case *ssa.MapUpdate:
 		m := a.get(x.Map).(MapV)
-		if m.obj == 0 {
-			a.mayPanic(True, "assignment to entry in nil map")
-		}
+		a.mayPanic(m.isNil(), "assignment to entry in nil map")
 		a.mapUpdate(m.obj, a.get(x.Key), a.get(x.Value))
 	case *ssa.Range:
 		m := a.get(x.X).(MapV)
@@ -1128,7 +1142,7 @@ func (a *Act) exec(instr ssa.Instruction) {
 		if m.obj != 0 {
 			n = len(a.st.heap[m.obj].v.(MapData).entries)
 		}
-		a.set(x, IterV{obj: a.alloc(IterData{m: m.obj, n: n, pos: BV(8, 0)})})
+		a.set(x, IterV{obj: a.alloc(IterData{m: m.obj, n: n, pos: BV(8, 0), nilG: m.isNil()})})
 	case *ssa.Next:
 		a.set(x, a.next(x))
 	case *ssa.Select:
@@ -1441,7 +1455,7 @@ func (a *Act) lookup(x *ssa.Lookup) Value {
 	val, ok := a.in.zeroVal(x.X.Type().Underlying().(*types.Map).Elem()), False
 	if mv.obj != 0 {
 		for _, e := range a.st.heap[mv.obj].v.(MapData).entries {
-			c := And(e.present, valEq(e.key, key))
+			c := And(e.present, valEq(e.key, key), Not(mv.isNil()))
 			val = iteVal(c, e.val, val)
 			ok = Or(ok, c)
 		}
@@ -1575,6 +1589,9 @@ func (a *Act) next(x *ssa.Next) Value {
 		var sels []selT
 		for i := 0; i < d.n; i++ {
 			cand := And(BvCmp("bvule", d.pos, BV(8, uint64(i))), entries[i].present)
+			if d.nilG != nil {
+				cand = And(cand, Not(d.nilG))
+			}
 			sel := And(noneBefore, cand)
 			sels = append(sels, selT{sel, i})
 			noneBefore = And(noneBefore, Not(cand))
@@ -1587,7 +1604,7 @@ func (a *Act) next(x *ssa.Next) Value {
 			npos = Ite(s.c, BV(8, uint64(s.i+1)), npos)
 		}
 	}
-	a.st.heap[it.obj] = nv(IterData{m: d.m, n: d.n, pos: npos})
+	a.st.heap[it.obj] = nv(IterData{m: d.m, n: d.n, pos: npos, nilG: d.nilG})
 	return TupleV{ok, key, val}
 }
 
@@ -1684,6 +1701,28 @@ func (a *Act) invokeAlt(al IfaceAlt, method *types.Func, args []Value) Value {
 			return iteVal(valEq(node.f[1], args[0]), node.f[2], fromParent)
 		}
 		return fromParent
+	}
+	if al.typ == in.opaqueType("sha256") {
+		p := al.val.(PtrV)
+		id := p.alts[0].obj
+		switch method.Name() {
+		case "Write":
+			sl := args[0].(SliceV)
+			in.hashWrites[id] = append(in.hashWrites[id], sl)
+			return TupleV{sl.len, nilIface()}
+		case "Sum":
+			arr := ArrayV{e: make([]Value, 32)}
+			for i := range arr.e {
+				arr.e[i] = in.fresh("sha256", BVS(8))
+			}
+			out := a.alloc(arr)
+			if in.hashSums == nil {
+				in.hashSums = map[int]int{}
+			}
+			in.hashSums[out] = id
+			return SliceV{arr: ptrTo(out), len: BV(64, 32), cap: BV(64, 32)}
+		}
+		panic(unsupported("sha256 method " + method.Name()))
 	}
 	if ov, ok := al.val.(OpaqueV); ok {
 		in.stubs["opaque."+method.Name()]++
@@ -1843,7 +1882,7 @@ func (a *Act) builtin(name string, args []Value) Value {
 			n := BV(64, 0)
 			if x.obj != 0 {
 				for _, e := range a.st.heap[x.obj].v.(MapData).entries {
-					n = BvBin("bvadd", n, Ite(e.present, BV(64, 1), BV(64, 0)))
+					n = BvBin("bvadd", n, Ite(And(e.present, Not(x.isNil())), BV(64, 1), BV(64, 0)))
 				}
 			}
 			return n
@@ -1852,6 +1891,9 @@ func (a *Act) builtin(name string, args []Value) Value {
 		return args[0].(SliceV).cap
 	case "delete":
 		if m := args[0].(MapV); m.obj != 0 {
+			if !m.isNil().IsFalse() {
+				panic(unsupported("delete on a possibly nil map"))
+			}
 			a.mapDelete(m.obj, args[1])
 		}
 		return nil
